@@ -56,12 +56,23 @@ pub fn pool() -> &'static StaticsPool {
                 pristine.push(t);
             }
         }
+        // every text exists twice, at two addresses (index i and i + n): equal static texts need not be the same
+        // static
+        let twins = pristine.clone();
+        pristine.extend(twins);
         let texts = pristine.iter().map(|s| &*Box::leak(s.clone().into_boxed_str())).collect();
         StaticsPool { texts, pristine }
     })
 }
 
 impl StaticsPool {
+    /// another pool text, at another address, that starts with `prefix` (the twin of `k` at the latest)
+    pub fn other_with_prefix(&self, k: u16, prefix: &str, salt: usize) -> Option<u16> {
+        let n = self.texts.len();
+        let k = k as usize % n;
+        let c: Vec<usize> = (0..n).filter(|i| *i != k && self.pristine[*i].starts_with(prefix)).collect();
+        if c.is_empty() { None } else { Some(c[salt % c.len()] as u16) }
+    }
     pub fn get(&self, k: u16) -> &'static str {
         self.texts[k as usize % self.texts.len()]
     }
